@@ -21,6 +21,7 @@ def run(F, tier):
     headers.h3(rep, F)
     r2 = headers.h2(rep, F)
     headers.h4(rep, F)
+    headers.h5(rep, F)
     fieldfmt.u3(rep, F, "headers")
     rep.sample({"tags": r.get("tags")})
     rep.sample({"assembly": r2.get("sequence")})
